@@ -162,6 +162,7 @@ bool StepScript(InterpreterEnv& env)
 
         // Update environment
         env.curr_op_seq++;
+        ++env.opcode_pos; // position of the next opcode (BIP342 codeseparator_pos), as EvalScript counts it
         return true;
     }
 
@@ -250,6 +251,7 @@ bool RewindScript(InterpreterEnv& env)
     env.altstack = env.altstack_history.back();
     env.pc = env.pc_history.back();
     env.curr_op_seq--;
+    env.opcode_pos--;
     env.nOpCount = env.nOpCount_history.back();
     env.vfExec = env.vfExec_history.back();
     env.pbegincodehash = env.pbegincodehash_history.back();
